@@ -389,7 +389,7 @@ def compare_batch(c, r, v):
     return None
 
 
-def evaluate(cases):
+def evaluate_units(cases):
     res = vlib.run_impl("impl_c11.py", {"cases": cases})["results"]
     exprs, idx = [], []
     verdicts = [None] * len(cases)
@@ -440,7 +440,71 @@ def evaluate(cases):
     return verdicts
 
 
-def shrinks(c):
+def units_of(case):
+    if case["kind"] == "history":
+        out = []
+        for b, u in enumerate(case["units"]):
+            u = dict(u)
+            if b > 0:
+                u["keep_state"] = True
+            out.append(u)
+        return out
+    return [case]
+
+
+def evaluate(cases):
+    """cases are single calls or histories ({"kind": "history", "units": [...]}: consecutive calls in one process,
+    module state kept in between).  Per case the first failing unit decides."""
+    flat, owner = [], []
+    for i, c in enumerate(cases):
+        for u in units_of(c):
+            flat.append(u)
+            owner.append(i)
+    uv = evaluate_units(flat)
+    verdicts = [{"fail": None, "units": [], "n_new": 0, "raised": False} for _ in cases]
+    for u, o, v in zip(flat, owner, uv):
+        d = verdicts[o]
+        b = len(d["units"])
+        d["units"].append((u, v))
+        d["n_new"] += max(0, v.get("n_new", 0))
+        d["raised"] = d["raised"] or bool(v.get("raised"))
+        if v["fail"] and not d["fail"]:
+            d.update(fail=v["fail"], batch=b, impl=v["impl"], coq=v.get("coq"))
+    for d in verdicts:
+        d.setdefault("impl", d["units"][-1][1]["impl"])
+    return verdicts
+
+
+def resample_rows(rng, base_rows, nrows):
+    """fresh rows over the same columns: every cell drawn from its column's values in the base batch (keeps numeric columns
+    numeric and multi-value columns multi-valued), so later batches differ in rows, values per row and row count"""
+    ncol = len(base_rows[0])
+    cols = [[r[j] for r in base_rows] for j in range(ncol)]
+    return [[rng.choice(cols[j]) for j in range(ncol)] for _ in range(nrows)]
+
+
+def gen_history(rng):
+    """2..3 consecutive calls with the same configuration in one process, module state NOT cleared in between"""
+    g = rng.choice([gen_batch, gen_batch, gen_batch, gen_multivalue, gen_sub, gen_combined])
+    for _ in range(50):
+        c0 = g(rng)
+        units = [c0]
+        for _ in range(rng.randint(1, 2)):
+            u = dict(c0, rows=resample_rows(rng, c0["rows"], rng.randint(3, 25)), np_seed=rng.randint(0, 10 ** 6))
+            units.append(u)
+        if g is not gen_batch or all(estimate_columns(u) <= 130 for u in units):
+            return {"kind": "history", "units": units}
+    return {"kind": "history", "units": [c0]}
+
+
+def shrinks(c, batch=0):
+    if c["kind"] == "history":
+        units = c["units"][:batch + 1]
+        out = [dict(c, units=units)]
+        for k in (2, 4, 8):
+            out.append(dict(c, units=[dict(u, rows=u["rows"][:k]) for u in units]))
+            out.append(dict(c, units=[dict(u, rows=u["rows"][:k]) for u in units[:-1]] + [units[-1]]))
+        return out
     out = []
     n = len(c["rows"])
     for k in (2, 3, 5, max(5, n // 2)):
@@ -481,25 +545,32 @@ def check(run, replay):
                 cases.append(g(run.rng))
         for _ in range(3 if q else 20):
             cases.append(gen_batch(run.rng, force_noise=True))
+        for _ in range(30 if q else 300):
+            cases.append(gen_history(run.rng))
     verdicts = evaluate(cases)
 
     hist = {"kind": {}, "rows": {}, "raised": 0, "invalid_config_skipped": 0, "appended_columns": 0, "batch_flags": {},
-            "batch_frame_captured": 0}
+            "batch_frame_captured": 0, "histories": 0, "history_units": 0}
     failing = []
     for c, v in zip(cases, verdicts):
-        hist["kind"][c["kind"]] = hist["kind"].get(c["kind"], 0) + 1
-        b = min(len(c["rows"]) // 20 * 20, 200)
-        hist["rows"]["%d+" % b] = hist["rows"].get("%d+" % b, 0) + 1
-        if v.get("raised"):
-            hist["raised"] += 1
-            if not v["fail"]:
-                hist["invalid_config_skipped"] += 1
+        if c["kind"] == "history":
+            hist["histories"] += 1
+            hist["history_units"] += len(c["units"])
+        for u, w in v["units"]:
+            key = u["kind"] + ("(history)" if u.get("keep_state") else "")
+            hist["kind"][key] = hist["kind"].get(key, 0) + 1
+            b = min(len(u["rows"]) // 20 * 20, 200)
+            hist["rows"]["%d+" % b] = hist["rows"].get("%d+" % b, 0) + 1
+            if w.get("raised"):
+                hist["raised"] += 1
+                if not w["fail"]:
+                    hist["invalid_config_skipped"] += 1
+            if u["kind"] == "batch":
+                key = "+".join(step_kinds(u)) or "none"
+                hist["batch_flags"][key] = hist["batch_flags"].get(key, 0) + 1
+                if w["impl"].get("captured"):
+                    hist["batch_frame_captured"] += 1
         hist["appended_columns"] += max(0, v.get("n_new", 0))
-        if c["kind"] == "batch":
-            key = "+".join(step_kinds(c)) or "none"
-            hist["batch_flags"][key] = hist["batch_flags"].get(key, 0) + 1
-            if v["impl"].get("captured"):
-                hist["batch_frame_captured"] += 1
         run.count_case(c, v.get("n_new", 0) > 0)
         if v["fail"]:
             failing.append((c, v))
@@ -511,7 +582,7 @@ def check(run, replay):
         cand, owner = [], []
         if replay is None:
             for k, (c, v) in enumerate(todo):
-                for s in shrinks(c)[:14]:
+                for s in shrinks(c, v.get("batch", 0))[:14]:
                     cand.append(s)
                     owner.append(k)
         sv = []
@@ -528,7 +599,9 @@ def check(run, replay):
                     best, bestv = s, w
             diag.append((best, bestv))
         # model output for the message (diagnostics only)
-        mexprs = [model_expr(b) for b, _ in diag]
+        def failing_unit(b, bv):
+            return units_of(b)[min(bv.get("batch", 0), len(units_of(b)) - 1)]
+        mexprs = [model_expr(failing_unit(b, bv)) for b, bv in diag]
         mvals = {}
         try:
             sel = [(j, e) for j, e in enumerate(mexprs) if e]
@@ -540,7 +613,10 @@ def check(run, replay):
             pass
         for j, (best, bestv) in enumerate(diag):
             r = bestv["impl"]
-            run.violation("counterexample", "C11 checkers on the frame returned by %s" % best["kind"], case=best,
+            fu = failing_unit(best, bestv)
+            run.violation("counterexample", "C11 checkers on the frame returned by %s%s" % (
+                fu["kind"], " (call %d of a history in one process)" % (bestv.get("batch", 0) + 1) if best["kind"] == "history" else ""),
+                          case=best,
                           impl={"names": r.get("names") or (r.get("captured") or {}).get("names") or r.get("summary_names"),
                                 "error": r.get("error"), "detail": bestv["fail"][1]},
                           model={"appended_by_transcription": mvals.get(j), "coq": repr(bestv.get("coq"))[:300]},
@@ -553,6 +629,8 @@ def check(run, replay):
         "random noise columns (and CONTROL-volume, constant0, int-sequence) are compared by name and length only; "
         "CONTROL-target exactly",
         "appended columns are compared as a name -> column map after the unchanged prefix (set-iteration order is free)",
+        "module state (every GLOBAL_* container, IGNORED_VALUES) is cleared before each case and kept between the calls of a "
+        "history case",
         "configurations naming a missing column / malformed mappings (the transcription returns None, the code raises) are not compared",
         "interaction columns inside compute_batch_ranking are compared by the partition they induce (the model runs with the "
         "identity as hash); the sampler cap is non-binding in batch cases",
